@@ -1,12 +1,12 @@
 #!/venv/bin/python
 """Run every stored seeded change against the check(s) that are recorded as catching it (or its own property's check)
-and report which are detected now. Usage: tools/seeded_all.py [-j 4] [--seed 1]"""
+and report which are detected now. Usage: tools/seeded_all.py [-j 4] [--seed 1] [--match r3]"""
 import argparse, json, os, subprocess, sys
 from concurrent.futures import ThreadPoolExecutor
-ap = argparse.ArgumentParser(); ap.add_argument('-j', type=int, default=4); ap.add_argument('--seed', default='1')
+ap = argparse.ArgumentParser(); ap.add_argument('-j', type=int, default=4); ap.add_argument('--seed', default='1'); ap.add_argument('--match', default='')
 a = ap.parse_args()
 V = os.path.dirname(os.path.dirname(os.path.abspath(__file__)))
-ids = sorted(d for d in os.listdir(os.path.join(V, 'seeded')) if os.path.isfile(os.path.join(V, 'seeded', d, 'meta.json')))
+ids = sorted(d for d in os.listdir(os.path.join(V, 'seeded')) if os.path.isfile(os.path.join(V, 'seeded', d, 'meta.json')) and a.match in d)
 def run(sid):
     m = json.load(open(os.path.join(V, 'seeded', sid, 'meta.json')))
     props = sorted({k.split(':')[0] for k, v in m.get('checks', {}).items() if v.get('detected')}) or [m['breaks_property']]
